@@ -219,6 +219,17 @@ class Interp:
 
     def stmt(self, s, st):
         out = []
+        if isinstance(s, ast.Expr) and isinstance(s.value, ast.Yield):
+            # a generator step: the yielded value and the object's state at that moment are recorded; `yield_hook(interp, value, state)`
+            # (when set) plays the consumer and returns the states in which the generator is resumed
+            vals = self._vals(s.value.value, st, out, s) if s.value.value is not None else [(Const(None), st)]
+            for v, s2 in vals:
+                snap = {k: x for k, x in s2.env.items() if self.selfname and k.startswith(self.selfname + ".")}
+                s2.events.append(("yield", v, snap))
+                hook = getattr(self, "yield_hook", None)
+                for s3 in (hook(self, v, s2) if hook is not None else [s2]):
+                    out.append(("next", None, s3, None))
+            return out
         if isinstance(s, ast.Expr):
             for v, s2 in self._vals(s.value, st, out, s):
                 out.append(("next", None, s2, None))
@@ -542,6 +553,10 @@ class Interp:
                     res.append((v, s))
                 elif isinstance(v, Const) and v.v is None:
                     res.append((Exc("AttributeError", e), s))
+                elif isinstance(v, Const) and isinstance(v.v, _re.Match) and e.attr in ("lastgroup", "lastindex", "string", "pos", "endpos"):
+                    res.append((Const(getattr(v.v, e.attr)), s))
+                elif isinstance(v, Const) and isinstance(v.v, _re.Pattern) and e.attr in ("pattern", "flags", "groups", "groupindex"):
+                    res.append((Const(dict(v.v.groupindex) if e.attr == "groupindex" else getattr(v.v, e.attr)), s))
                 elif isinstance(v, Const) and isinstance(v.v, Rec):
                     if e.attr in v.v.fields:
                         res.append((Const(v.v.fields[e.attr]), s))
